@@ -58,7 +58,10 @@ Inductive value :=
 | VJunk.                    (* Pinned reading a Junk file returns that object *)
 
 Inductive pstate :=
-| PStart (e : expr)                          (* perform_cached_doit(e, dir) entered *)
+| PStart (e : expr)                          (* perform_cached_doit(e, dir) entered; its first step also does
+                                                cache_directory.mkdir(exist_ok=True, parents=True): idempotent and
+                                                race-free, so 'directory absent' needs no state of its own; exercised
+                                                by the cold-start histories of the harness *)
 | PKeyed (e : expr) (k : key)                (* h = get_readable_hash(e); about to look at <k>.pkl *)
 | PExists (e : expr) (k : key)               (* Pinned only: filename.exists() was True *)
 | PMiss (e : expr) (k : key)                 (* nothing usable in the cache *)
